@@ -570,7 +570,7 @@ func Run(in Input) (c *common.Case) {
 			vals = []string{g.Basepath, g.Layerdirs, g.LayerBuildRoot, g.LayerBinPkgdir, g.LayerGeneratedir, g.LayerOvfsWorkdir,
 				g.LayerOvfsUpperdir, g.Exportdirs, g.ExportBinPkgdir, g.ExportGeneratedir, g.ChrootExec}
 			obsTerm = "(OOk " + q.HxList(vals) + ")"
-			desc["obs"] = map[string]interface{}{"config": vals}
+			desc["obs"] = map[string]interface{}{"config": common.Bs(vals)}
 		}
 	case <-time.After(10 * time.Second):
 		obsTerm = "OTimeout"
